@@ -166,7 +166,7 @@ def report(machine: Any, prop: str, tier: str, seed: int, recs: list[dict], t0: 
             os.makedirs(os.path.join(HERE, "replays"), exist_ok=True)
             path = os.path.join(HERE, "replays", f"{prop}-{r['seed']}.json")
             with open(path, "w") as fh:
-                json.dump(msc, fh, indent=1, sort_keys=True, default=repr)
+                json.dump(msc, fh, indent=1, sort_keys=False, default=repr)
             new_violations.append((r, mv, path))
 
     # ---- known findings: replay witnesses
